@@ -1111,9 +1111,10 @@ class Collection(object):
                 if sort_key.startswith('$'):
                     raise NotImplementedError(
                         'Sorting by {} is not implemented in mongomock yet'.format(sort_key))
+                reverse = sort_direction < 0
                 dataset = iter(sorted(
-                    dataset, key=lambda x: filtering.resolve_sort_key(sort_key, x),
-                    reverse=sort_direction < 0))
+                    dataset, key=lambda x: filtering.resolve_sort_key(sort_key, x, reverse),
+                    reverse=reverse))
         for document in dataset:
             yield self._copy_only_fields(document, fields, as_class)
 
